@@ -17,6 +17,7 @@ import (
 	"regexp"
 	"sort"
 	"strings"
+	"sync"
 	"syscall"
 	"text/template"
 	"time"
@@ -1331,6 +1332,74 @@ func runRealFailures(prop string) procxResult {
 	return res
 }
 
+// runC13Real: the production task runner and exec handler under the race detector (free-running): overlapping cancel
+// requests of one job, a shell pipeline and background jobs (the interpreter runs their commands concurrently), a
+// fail-fast failure next to a cancel, and a forced shutdown. The detector reports unsynchronised accesses by
+// happens-before, so executing both sides once is enough - no lucky timing is needed.
+func runC13Real() procxResult {
+	res := procxResult{prop: "C13"}
+	scripts := [][]string{
+		{"sleep 600 | sleep 600"},
+		{"sleep 600 >/dev/null 2>&1 & sleep 600 >/dev/null 2>&1 & wait"},
+		{"bash -c 'sleep 600 >/dev/null 2>&1 &'", "sleep 600 | cat"},
+	}
+	for si, sc := range scripts {
+		for _, mode := range []string{"two-cancels", "cancel+failing-sibling", "cancel+forced-shutdown"} {
+			marker := fmt.Sprintf("r%d_%d_%s", os.Getpid(), si, mode)
+			g := map[string][]string{"a": nil}
+			scr := map[string][]string{"a": sc}
+			if mode == "cancel+failing-sibling" {
+				g["f"] = nil
+				scr["f"] = []string{"sleep 0.3", "exit 3"}
+			}
+			defs := mkDefs(map[string]PipeCfg{"v": {Conc: 1, QL: -1, Graph: g, Script: scr, TaskEnv: map[string]map[string]string{"a": {"VERIF_MARK": marker}}}})
+			pw := newProcWorld(defs, 300*time.Millisecond)
+			j, err := pw.r.ScheduleAsync("v", prunner.ScheduleOpts{})
+			if err != nil {
+				panic(err)
+			}
+			for i := 0; i < 2500 && countSleeps(marker) < 2; i++ {
+				time.Sleep(2 * time.Millisecond)
+			}
+			var wg sync.WaitGroup
+			switch mode {
+			case "two-cancels":
+				for k := 0; k < 2; k++ {
+					wg.Add(1)
+					go func() { defer wg.Done(); _ = pw.r.CancelJob(j.ID) }()
+				}
+			case "cancel+failing-sibling":
+				time.Sleep(350 * time.Millisecond)
+				wg.Add(1)
+				go func() { defer wg.Done(); _ = pw.r.CancelJob(j.ID) }()
+			case "cancel+forced-shutdown":
+				wg.Add(2)
+				go func() { defer wg.Done(); _ = pw.r.CancelJob(j.ID) }()
+				go func() {
+					defer wg.Done()
+					ctx, cf := context.WithCancel(context.Background())
+					cf()
+					_ = pw.r.Shutdown(ctx)
+				}()
+			}
+			wg.Wait()
+			if _, ok := pw.wait(j.ID, 60*time.Second); !ok {
+				res.inconclusive(fmt.Sprintf("real-runner race scenario %q / %s: the job did not finish within 60s", sc, mode))
+			}
+			res.Cases++
+			res.Distinct++
+			for _, p := range procsWithMarker(marker) {
+				var pid int
+				fmt.Sscanf(p, "%d:", &pid)
+				syscall.Kill(pid, syscall.SIGKILL)
+			}
+			pw.close()
+		}
+	}
+	res.Samples = append(res.Samples, "real task runner under the race detector: 3 scripts (pipeline, background jobs, helper left behind) x {two cancels, cancel + failing sibling, cancel + forced shutdown}")
+	return res
+}
+
 func runProcxUnit(u Unit) UnitResult {
 	res := UnitResult{Name: u.Name, Exhaustive: true, Unbounded: true}
 	FreePause = 5 * time.Millisecond
@@ -1340,6 +1409,8 @@ func runProcxUnit(u Unit) UnitResult {
 		r = runRealFailures(u.Prop)
 	case "C18":
 		r = runC18()
+	case "C13":
+		r = runC13Real()
 	case "C19":
 		r = runC19(u.Tier, u.Index, procxParts(u.Prop, u.Tier))
 	case "C20":
